@@ -1,0 +1,23 @@
+//go:build verif
+
+package installer
+
+// Contracts checked by /verif (govc). Comment-only file: it adds no code.
+
+// ---- C16: extracting a plugin archive writes only inside the target directory: every entry name goes
+// through cleanJoin, which refuses ':' (drive / path-list separator), any '..' component (after
+// turning backslashes into slashes) and absolute paths, and joins the rest with SecureJoin
+
+//@ func cleanJoin
+//@   props C16
+//@   ensures [confined] result1 == nil ==> confined(result0, fclean(root))
+//@   ensures [refuses-colon] strings.Contains(dest, ":") ==> result1 != nil
+//@   ensures [refuses-dotdot] result1 == nil ==> (forall j int :: 0 <= j && j < splitLen(sreplace(dest, "\\", "/"), "/") ==> splitAt(sreplace(dest, "\\", "/"), "/", j) != "..")
+//@   ensures [refuses-absolute] result1 == nil ==> !strings.HasPrefix(sreplace(dest, "\\", "/"), "/")
+//@   loop 1 invariant [no-dotdot-so-far] forall j int :: 0 <= j && j < #iter ==> #range[j] != ".."
+
+//@ func (*TarGzExtractor).Extract
+//@   props C16
+//@   requires buffer != nil
+//@   ensures [writes-confined] forall p string :: GwrittenPaths[p] && !old(GwrittenPaths)[p] ==> p == targetDir || confined(p, fclean(targetDir))
+//@   loop 1 invariant [writes-confined] forall p string :: GwrittenPaths[p] && !old(GwrittenPaths)[p] ==> p == targetDir || confined(p, fclean(targetDir))
